@@ -2,6 +2,7 @@ import JsonVerif.Lemmas.ErrAt
 import JsonVerif.Lemmas.Steps
 import JsonVerif.Model.Entry
 import JsonVerif.Lemmas.Hub
+import JsonVerif.Lemmas.Viable
 /-!
 # C07 — Parse errors point at the first offending character
 
@@ -82,20 +83,45 @@ theorem C07_error_only_if_invalid (cs : List Char) (e : PErr)
   rw [hc] at h
   cases h
 
-/-- Full statement of the viable-prefix clause (not yet proved; tested against an independent
-    LL(1) recogniser on every rejected input of the streams). `Viable pre` = some continuation of
-    `pre` is a JSON text. -/
-def C07_viable_full (Viable : List Char → Prop) : Prop :=
+/-- `Viable pre`: some continuation of `pre` is a JSON text of the grammar in which any `\\uXXXX`
+    escape is syntactically allowed (`LDoc ⟨true, true⟩`, Spec/LGrammar.lean). -/
+def Viable (pre : List Char) : Prop := ∃ suffix v, LDoc allOpts (pre ++ suffix) v
+
+/-- **Upper bound of the viable prefix** (half of the first clause): when strict parsing fails
+    with an unexpected-character error at offset `p` on the character `a`, the input up to and
+    including `a` is NOT viable — no continuation of it is a JSON text, even with every `\\uXXXX`
+    escape allowed. So the longest viable prefix is at most `p` bytes long.
+    Proof: the error is raised on an option-independent branch (`run_emono`), and what the machine
+    does before it has looked past a prefix does not depend on what follows (`run_local_err`: one
+    locality lemma per lexical function, Lemmas/Local.lean), so every text with that prefix gets
+    the same error; by completeness (`parse_complete_o`) none of them is in the grammar. -/
+theorem C07_no_longer_prefix_viable (cs : List Char) (p : Nat) (a : Char)
+    (h : parseChars ⟨false, false⟩ cs false = .error (.unexpected p (some a))) :
+    ∃ pre rest, cs = pre ++ a :: rest ∧ p = utf8Len pre ∧ ¬ Viable (pre ++ [a]) := by
+  obtain ⟨pre, rest, e, hp, hc⟩ := C07_unexpected _ cs false p (some a) h
+  cases rest with
+  | nil => simp at hc
+  | cons b rest =>
+    simp only [List.head?_cons, Option.some.injEq] at hc
+    subst hc
+    refine ⟨pre, rest, e, hp, ?_⟩
+    rintro ⟨suffix, v, hd⟩
+    subst e hp
+    have := not_viable_beyond pre a rest h suffix v
+    apply this
+    simpa using hd
+
+/-- The same error is reported whatever follows the offending character, under every option record. -/
+theorem C07_error_is_local (o : ParseOptions) (pre : List Char) (a : Char) (rest rest' : List Char)
+    (h : parseChars ⟨false, false⟩ (pre ++ a :: rest) false = .error (.unexpected (utf8Len pre) (some a))) :
+    parseChars o (pre ++ a :: rest') false = .error (.unexpected (utf8Len pre) (some a)) :=
+  parse_error_local o pre a rest rest' h
+
+/-- Full statement of the viable-prefix clause; the lower bound (`Viable pre`) is not yet proved and
+    is tested against an independent LL(1) recogniser on every rejected input of the streams. -/
+def C07_viable_full : Prop :=
   ∀ cs p c, parseChars ⟨false, false⟩ cs false = .error (.unexpected p c) →
     ∃ pre rest, cs = pre ++ rest ∧ p = utf8Len pre ∧ Viable pre ∧
       (∀ a, rest.head? = some a → ¬ Viable (pre ++ [a]))
-
-/-! Non-vacuity: errors of each kind, kernel-evaluated. -/
-example : errOf (parseChars ⟨false, false⟩ "[1, é x]".toList false) = some (.unexpected 4 (some 'é')) := by
-  rw [← parseCharsF_eq]; decide +kernel
-example : errOf (parseChars ⟨false, false⟩ "[\"\\ud800x\"]".toList false) = some (.missingLow 3 8 0xd800) := by
-  rw [← parseCharsF_eq]; decide +kernel
-example : errOf (parseChars ⟨false, false⟩ "[tru".toList false) = some (.unexpected 4 none) := by
-  rw [← parseCharsF_eq]; decide +kernel
 
 end JsonVerif.C07
